@@ -1,2 +1,59 @@
-(* C15 — placeholder until the theorems are written (pipeline bring-up). *)
+(* C15 — rates posted to the oracle are the post-transaction rates; the oracle is optional. *)
 From MW Require Import Staking.
+From MW.Proofs Require Import Tactics Handlers Oracle.
+Open Scope N_scope.
+
+(* rates as 18-decimal fixed point: redemption = floor(N*10^18/L), purchase = floor(L*10^18/N); (0,0) when L = 0 *)
+Theorem C15_rates : forall x r p,
+  get_rates x = Some (r, p) ->
+  (total_lst x = 0 /\ r = 0 /\ p = 0)
+  \/ (total_lst x <> 0 /\ total_native x <> 0
+      /\ r = total_native x * 10 ^ 18 / total_lst x /\ p = total_lst x * 10 ^ 18 / total_native x).
+Proof. exact get_rates_spec. Qed.
+Print Assumptions C15_rates.
+
+(* what must be posted for a store: nothing without an oracle; with oracle o exactly one
+   MsgExecuteContract(o) carrying the LST denom and the rates of that very store *)
+Theorem C15_expected_posts : forall s e,
+  expected_posts s e =
+  match pc_oracle (protocol (cfg s)) with
+  | None => Some []
+  | Some o => match get_rates (st s) with
+              | Some (r, p) => Some [plain (AOracle (self e) o (lst_denom (cfg s)) (dec_to_string p) (dec_to_string r))]
+              | None => None
+              end
+  end.
+Proof. reflexivity. Qed.
+Print Assumptions C15_expected_posts.
+
+(* every successful transaction that changes the totals (LiquidStake, SubmitBatch, ReceiveRewards,
+   ResumeContract) emits, among its messages, exactly the posts expected for the store it RETURNS *)
+Theorem C15_posts_post_state : forall va dv av s e i m s' r,
+  posting m = true -> execute va dv av s e i m = Ok (s', r) -> expected_posts s' e = Some (oracle_posts r).
+Proof. exact posts_post_state. Qed.
+Print Assumptions C15_posts_post_state.
+
+(* the State query reports the purchase rate of the same store *)
+Theorem C15_state_query : forall s n l rate po rw fe,
+  query s QState = Ok (RState n l rate po rw fe) ->
+  exists r, get_rates (st s) = Some (r, rate) /\ n = total_native (st s) /\ l = total_lst (st s).
+Proof. exact state_query_rate. Qed.
+Print Assumptions C15_state_query.
+
+(* without an oracle the posting step cannot fail and posts nothing *)
+Theorem C15_no_oracle_no_post : forall s e, pc_oracle (protocol (cfg s)) = None -> oracle_msgs s e = Ok [].
+Proof. exact oracle_msgs_none. Qed.
+Print Assumptions C15_no_oracle_no_post.
+
+(* C15_oracle_optional_partial: "the same operations succeed with identical effects" is carried by the
+   inversion lemmas of Proofs/Handlers.v — every component of the returned store and every non-oracle
+   message is given by a formula that does not mention the oracle address — together with
+   C15_no_oracle_no_post; the converse direction (success with an oracle implies success without) is
+   not yet stated as one theorem and is covered by the correspondence runs (30% of histories run
+   without an oracle). *)
+
+Example C15_example_first_stake :
+  get_rates {| total_native := 1000; total_lst := 1000; total_reward := 0; total_fees := 0; pending_owner := None; owner_min_time := None |}
+  = Some (10 ^ 18, 10 ^ 18) /\ dec_to_string (10 ^ 18) = "1"%string
+  /\ dec_to_string (2 * 10 ^ 18 / 3) = "0.666666666666666666"%string.
+Proof. vm_compute. repeat split; reflexivity. Qed.
